@@ -7,6 +7,7 @@ Open Scope Z_scope.
 Inductive c16_case :=
 (* an observation built by the harness (None: a hand-mutated message), its encoding, the implementation's decoding *)
 | KObs (input : option raw_observation) (bytes : list Z) (decoded : res raw_observation) (valid : option bool) (has_pred : bool)
+       (validate_at_0_1_2 : list (res unit))    (* ValidateObservation on the bytes at sequence numbers 0, 1, 2 *)
 (* a stream value, MarshalBinary, UnmarshalProtoStreamValue of (type, those bytes) *)
 | KSval (v : sval) (bytes : res (list Z)) (decoded : res sval)
 (* raw (type, bytes) handed to UnmarshalProtoStreamValue *)
@@ -36,10 +37,15 @@ Definition offchain_eqb (a b : offchain_cfg) : bool := (oc_version a =? oc_versi
 Definition llo_onchain_eqb (a b : llo_onchain) : bool := bool_decide (lo_pred a = lo_pred b).
 Definition merc_onchain_eqb (a b : merc_onchain) : bool := (mo_min a =? mo_min b) && (mo_max a =? mo_max b).
 
+Fixpoint all2u {A B} (f : A -> B -> bool) (a : list A) (b : list B) : bool :=
+  match a, b with [], [] => true | x :: a', y :: b' => f x y && all2u f a' b' | _, _ => false end.
 Definition c16_agrees (c : c16_case) : bool :=
   match c with
-  | KObs inp bs dec valid hp =>
+  | KObs inp bs dec valid hp vs =>
       res_eqb raw_obs_eqb (decode_observation bs) dec &&
+      (* a malformed decoded value (reported as Panic by the harness) is outside the comparison *)
+      (if is_panic dec then true
+       else all2u (fun sq v => res_eqb (fun _ _ => true) (plugin_validate (fun _ => true) hp sq bs) v) [0; 1; 2] vs) &&
       match inp with Some ob => bytes_eq (encode_observation_like bs ob) bs | None => true end &&
       match valid, dec with
       | Some v, Ok ob => Bool.eqb (validate_observation (fun _ => true) hp ob) v
@@ -85,8 +91,8 @@ Definition obs_documented_rejections (bs : list Z) (dec : res raw_observation) :
   end.
 Definition c16_spec_ok (c : c16_case) : bool :=
   match c with
-  | KObs (Some ob) _ dec _ _ => match dec with Ok ob' => raw_obs_eqb ob ob' | _ => false end   (* round trip *)
-  | KObs None bs dec _ _ => negb (is_panic dec) && obs_documented_rejections bs dec
+  | KObs (Some ob) _ dec _ _ vs => match dec with Ok ob' => raw_obs_eqb ob ob' | _ => false end && forallb (fun v => negb (is_panic v)) vs   (* round trip *)
+  | KObs None bs dec _ _ vs => negb (is_panic dec) && obs_documented_rejections bs dec && forallb (fun v => negb (is_panic v)) vs
   | KSval v (Ok _) dec => match dec with Ok v' => sval_eqb v v' | _ => (2 <? sval_depth v)%nat end
   | KSval _ _ dec => negb (is_panic dec)
   | KSvalRaw _ _ dec => negb (is_panic dec)
@@ -107,7 +113,7 @@ Definition c16_spec_ok (c : c16_case) : bool :=
 
 Definition c16_branch (c : c16_case) : nat :=
   match c with
-  | KObs (Some _) _ _ _ _ => 0 | KObs None _ (Ok _) _ _ => 1 | KObs None _ _ _ _ => 2 | KSval _ _ _ => 3 | KSvalRaw _ _ _ => 4
+  | KObs (Some _) _ _ _ _ _ => 0 | KObs None _ (Ok _) _ _ _ => 1 | KObs None _ _ _ _ _ => 2 | KSval _ _ _ => 3 | KSvalRaw _ _ _ => 4
   | KOffchain _ _ _ => 5 | KOffchainRaw _ _ => 6 | KLloOnchain _ _ _ => 7 | KMercOnchain _ _ _ => 8
   | KInt192 _ _ _ => 9 | KInt192Raw _ _ => 10 | KGoOnly _ _ => 11 | KRetire _ _ _ _ => 11 | KMercOff _ _ _ _ => 11 end%nat.
 Definition histogram12 (l : list nat) : list nat := map (fun b => length (List.filter (Nat.eqb b) l)) (seq 0 12).
